@@ -205,7 +205,17 @@ RECIPES += [
     ("C10", "neutral", [], CYC, "    return [form.format(i, j) for i, j in zip(bins[:-1], bins[1:])]", "    return list(map(lambda lo, hi: form.format(lo, hi), bins[:-1], bins[1:]))", "labels through map"),
     ("C10", "neutral", [], LOC, "    stol = abs(tol * abs(m).max())\n    pv = np.hstack((True, abs(m) > stol))\n    return pv",
      "    scaled = lambda d: abs(tol * d.max())\n    return np.hstack(([True], np.array([d > scaled(abs(m)) for d in abs(m)])))", "tolerance through a lambda, mask spelled element by element"),
+    ("C10", "neutral", [], FDE, _SERIAL_COUNT, "            def _cumrow(levels):\n                out = np.zeros(len(levels))\n                for k in range(len(levels)):\n"
+     "                    out[k] = np.sum(count[amp >= levels[k]])\n                return out\n\n            amp = rf[\"amp\"]\n            count = rf[\"count\"]\n"
+     "            Amax[j] = amp.max()\n            BinAmps[j] *= Amax[j]\n            Count[j] = _cumrow(BinAmps[j])\n", "cumulative counts of a frequency returned by a helper as a freshly filled row"),
+    ("C10", "neutral", [], CYC, "            bim = bin_indices_mean[i]\n            bir = bin_indices_range[i]\n", "            bim = (bin_indices_mean + 1)[i] - 1\n            bir = bin_indices_range[i]\n",
+     "digitize offset applied partly to the vector and partly to the element"),
     # ---------------------------------------------------------------------------------------------------------------- break (in refactored spellings)
+    ("C10", "break", ["C10-R5"], CYC, "    bin_indices_range = np.digitize(cycles[:, 0], bins_range, right=right) - 1", "    bin_indices_range = np.digitize(cycles[0, :], bins_range, right=right) - 1",
+     "amplitudes taken from row 0 instead of column 0 (the evaluator writes X[0, :] as X[0])"),
+    ("C10", "break", ["C10-R3"], FDE, _BINCOUNT, "    BinCount = np.hstack((Count[:-1, :] - Count[:, 1:], Count[:, -1:]))", "differences taken along the frequencies"),
+    ("C10", "break", ["C10-R5"], CYC, "            bim = bin_indices_mean[i]\n            bir = bin_indices_range[i]\n", "            bim = bin_indices_mean[i] - 1\n            bir = bin_indices_range[i]\n",
+     "bin index shifted once more at the element"),
     ("C10", "break", ["C10-R1"], FDE, _DF_LOOP, "    rows = list(zip(BinAmps, BinCount))\n    Df4 = np.array([(amps**b4).dot(cnts) for amps, cnts in rows])\n"
      "    Df8 = np.array([(amps**b4).dot(cnts) for amps, cnts in rows])\n    Df12 = np.array([(amps**b12).dot(cnts) for amps, cnts in rows])\n", "wrong exponent inside a comprehension over zipped rows"),
     ("C10", "break", ["C10-R1"], FDE, _DF_LOOP, "    Df4 = np.array(list(map(lambda a, c: (a ** b4).dot(c), BinAmps, BinCount)))\n"
